@@ -301,3 +301,15 @@ func TestFindingC04CrossTableUUID(t *testing.T) {
 		}
 	}
 }
+
+func TestFindingC09Int53(t *testing.T) {
+	p := newPinned(t, schemaPlain)
+	big := int64(1<<53 + 1)
+	js, failed, _ := p.txn(fmt.Sprintf(`[{"op":"insert","table":"T0","uuid":"%s","row":{"name":"a","n":%d}}]`, u(1), big))
+	if failed {
+		t.Fatalf("setup: %s", js)
+	}
+	if got := p.state()["T0"][u(1)]["n"].K[0].I; got != big {
+		t.Fatalf("VERIF-FAIL property=C09 class=int53: integer %d arrives as %d (JSON numbers are decoded as float64 before conversion to int)", big, got)
+	}
+}
